@@ -1,8 +1,120 @@
-(* C16 - property theorems (filled in as the proofs are completed). *)
+(* C16 - knapsack / bin-packing answers are feasible, scored faithfully, labelled right.
+   Models: SV.C16.Knapsack (knap_z, knap_q; solvor/knapsack.py after fix 9cda073), SV.C16.BinPack (bin_pack;
+   solvor/bin_pack.py after fix 6898168).  Only `exact lemma` proofs here; the work is in C16/*Proofs.v.
+   Not proved (declared): the 11/9 OPT + 6/9 bound of the decreasing heuristics (explored by the harness oracle only). *)
 From Coq Require Import List Arith ZArith QArith Bool.
-From SV Require Import C16.KnapCore C16.Knapsack C16.BinPack C16.KnapSpec C16.BinSpec.
+From SV Require Import C16.KnapCore C16.Knapsack C16.BinPack C16.KnapSpec C16.BinSpec
+                       C16.KnapZProofs C16.KnapQProofs C16.KnapGridProofs C16.BinProofs.
 Import ListNotations.
 
-Example C16_knap_z_example :
-  zobs_of (knap_z [3;4;5]%Z [2;3;4]%Z 5%Z false) = Some ([0;1]%nat, 7%Z, OPTIMAL).
-Proof. vm_compute. reflexivity. Qed.
+(* (1) feasibility + faithful objective of every answer of the rational model, both exits (DP answer that passed the
+   code's final check, greedy fallback): strictly increasing (hence distinct) in-range indices, objective = sum of
+   the selected values, weight <= capacity + 1e-9 - the code's own tolerance ... *)
+Theorem C16_knap_feasible_value : forall values weights capacity minimize r,
+  Qle_bool 0 capacity = true ->
+  knap_q values weights capacity minimize = Some r ->
+  knap_feasible_q tol values weights capacity (qsel r) (qobj r).
+Proof. exact knap_q_feasible. Qed.
+Print Assumptions C16_knap_feasible_value.
+
+(* ... and weight <= capacity exactly when weights and capacity lie on a grid 1/d coarser than the tolerance
+   (integers, dyadic numbers, decimals with up to 8 places), and always on the fallback exit *)
+Theorem C16_knap_feasible_value_grid : forall d values weights capacity minimize r,
+  Qle_bool 0 capacity = true ->
+  (d <? 1000000000)%positive = true -> on_gridb d capacity = true -> forallb (on_gridb d) weights = true ->
+  knap_q values weights capacity minimize = Some r ->
+  knap_feasible_q 0 values weights capacity (qsel r) (qobj r).
+Proof. exact knap_q_feasible_grid. Qed.
+Print Assumptions C16_knap_feasible_value_grid.
+
+Theorem C16_knap_feasible_value_fallback : forall values weights capacity minimize r,
+  Qle_bool 0 capacity = true ->
+  knap_q values weights capacity minimize = Some r -> qstatus r = FEASIBLE ->
+  knap_feasible_q 0 values weights capacity (qsel r) (qobj r).
+Proof. exact knap_q_feasible_exact_fallback. Qed.
+Print Assumptions C16_knap_feasible_value_fallback.
+
+(* the integer instance: exact *)
+Theorem C16_knap_feasible_value_int : forall values weights capacity minimize r,
+  knap_valid_z values weights capacity = true ->
+  knap_z values weights capacity minimize = Some r ->
+  knap_feasible_z values weights capacity (zsel r) (zobj r).
+Proof. exact knap_z_feasible. Qed.
+Print Assumptions C16_knap_feasible_value_int.
+
+(* (2) integer weights and capacity (values of any sign): an answer labelled OPTIMAL cannot be beaten by any
+   duplicate-free index list within the capacity (maximize: no larger value; minimize=True: no smaller value) *)
+Theorem C16_knap_optimal_int : forall values weights capacity minimize r,
+  knap_valid_z values weights capacity = true ->
+  knap_z values weights capacity minimize = Some r ->
+  zstatus r = OPTIMAL ->
+  knap_optimal_z values weights capacity minimize (zobj r).
+Proof. exact knap_z_optimal. Qed.
+Print Assumptions C16_knap_optimal_int.
+
+(* (3) bin packing, for the code's tolerance eps (any eps >= 0; the code has 1e-9): every item has exactly one bin
+   number, all below k = objective, every bin 0..k-1 is used, loads <= capacity + eps, total <= k * (capacity + eps),
+   OPTIMAL only if k <= 1 (then k is minimal: BinSpec.bin_optimal_minimal), k >= 1 when there are items *)
+Theorem C16_bin_valid : forall eps sizes cap bf dec r,
+  0 <= eps ->
+  bin_pack eps sizes cap bf dec = Some r ->
+  bin_valid eps sizes cap (basg r) (bobj r) (bstatus r).
+Proof. exact bin_pack_valid. Qed.
+Print Assumptions C16_bin_valid.
+
+(* with an exact fit test (eps = 0) the property's clauses hold without slack *)
+Theorem C16_bin_valid_exact_fit : forall sizes cap bf dec r,
+  bin_pack 0 sizes cap bf dec = Some r ->
+  bin_valid 0 sizes cap (basg r) (bobj r) (bstatus r).
+Proof. exact (fun sizes cap bf dec r => bin_pack_valid 0 sizes cap bf dec r (Qle_refl 0)). Qed.
+Print Assumptions C16_bin_valid_exact_fit.
+
+(* NOT PROVED (kept as a statement): with the code's eps = 1e-9 and sizes/capacity on a grid 1/d, d < 10^9, the
+   fit test `size - remaining <= eps` coincides with `size <= remaining` (remaining capacities stay on the grid),
+   so the clauses hold with slack 0.  Missing: the invariant "all remaining capacities are on the grid" through
+   fold_left place (the knapsack analogue is proved: C16_knap_feasible_value_grid).  The harness checks slack 0 on
+   every implementation output with the Coq checker bin_check 0. *)
+Definition C16_bin_valid_grid_full_statement : Prop :=
+  forall d sizes cap bf dec r,
+  (d <? 1000000000)%positive = true -> on_gridb d cap = true -> forallb (on_gridb d) sizes = true ->
+  bin_pack tol sizes cap bf dec = Some r ->
+  bin_valid 0 sizes cap (basg r) (bobj r) (bstatus r).
+
+(* the boolean specification checkers used by the harness on IMPLEMENTATION outputs are sound *)
+Theorem C16_knap_check_sound : forall values weights capacity o,
+  knap_check_q values weights capacity o = true -> knap_spec_q values weights capacity o.
+Proof. exact knap_check_q_sound. Qed.
+Theorem C16_bin_check_sound : forall slack sizes cap o,
+  bin_check slack sizes cap o = true -> bin_spec slack sizes cap o.
+Proof. exact bin_check_sound. Qed.
+Print Assumptions C16_knap_check_sound.
+Print Assumptions C16_bin_check_sound.
+
+(* ---------------------------------------------------------------- non-vacuity *)
+Example C16_nonvacuous_knap_int :
+  knap_valid_z [3;4;5;6]%Z [2;3;4;5]%Z 5%Z = true /\
+  zobs_of (knap_z [3;4;5;6]%Z [2;3;4;5]%Z 5%Z false) = Some ([0;1]%nat, 7%Z, OPTIMAL) /\
+  zobs_of (knap_z [5;3]%Z [0;0]%Z 0%Z false) = Some ([0;1]%nat, 8%Z, OPTIMAL) /\
+  zobs_of (knap_z [3;(-4);5]%Z [2;3;4]%Z 5%Z true) = Some ([1]%nat, (-4)%Z, OPTIMAL).
+Proof. vm_compute. repeat split. Qed.
+
+(* the scaling path with the final check failing -> greedy fallback, status FEASIBLE; inputs on the grid 1/2048 *)
+Example C16_nonvacuous_knap_fallback :
+  let w := [1537 # 2048; 3 # 4] in
+  qobs_eqb (qobs_of (knap_q [3 # 1; 4 # 1] w (3 # 2) false)) (Some ([1]%nat, 4 # 1, FEASIBLE)) = true /\
+  Qle_bool 0 (3 # 2) = true /\ (2048 <? 1000000000)%positive = true /\
+  on_gridb 2048 (3 # 2) = true /\ forallb (on_gridb 2048) w = true.
+Proof. vm_compute. repeat split. Qed.
+
+(* the tolerance is real: off the grid the model (and the code: solve_knapsack([1],[1.5000000005],1.5) -> (0,))
+   returns a selection heavier than the capacity by 5e-10 *)
+Example C16_knap_tolerance_witness :
+  qobs_eqb (qobs_of (knap_q [1] [3000000001 # 2000000000] (3 # 2) false)) (Some ([0]%nat, 1, OPTIMAL)) = true /\
+  Qle_bool (3000000001 # 2000000000) (3 # 2) = false.
+Proof. vm_compute. repeat split. Qed.
+
+Example C16_nonvacuous_bin :
+  bobs_of (bin_pack tol [3 # 1; 0; 5 # 1; 2 # 1; 5 # 1] (5 # 1) false false) = Some ([0;0;1;0;2]%nat, 3%nat, FEASIBLE) /\
+  bobs_of (bin_pack tol [11 # 10; 2 # 5] (3 # 2) true true) = Some ([0;0]%nat, 1%nat, OPTIMAL) /\
+  bin_check 0 [3 # 1; 0; 5 # 1; 2 # 1; 5 # 1] (5 # 1) (Some ([0;0;1;0;2]%nat, 3%nat, FEASIBLE)) = true.
+Proof. vm_compute. repeat split. Qed.
